@@ -374,11 +374,92 @@ def lin_write(L, z):
 
 
 # ------------------------------------------------------------------ step classes
+def nodes_with_lambdas(tu, fn, depth=0):
+    """the nodes of a function and of the bodies of the lambdas written inside it"""
+    for z in fn.nodes():
+        yield z
+        if z["k"] == "LambdaExpr" and depth < 4:
+            lf = tu.by_did.get(z.get("fn"))
+            if lf is not None:
+                yield from nodes_with_lambdas(tu, lf, depth + 1)
+
+
+def lambda_of_call(fn, call):
+    """(lambda function, LambdaExpr node) if `call` is f(args) with f a local that only names a lambda written in fn"""
+    if call is None or "callee" not in call or call.get("op") != "()" or not kids(call):
+        return None
+    lf = fn.tu.by_did.get(call["callee"].get("did"))
+    if lf is None or lf.kind != "lambda":
+        return None
+    le = resolve(fn, kids(call)[0])
+    if le is None or le["k"] != "LambdaExpr" or le.get("fn") != lf.did:
+        return lf, None
+    return lf, le
+
+
+def lambda_inline(fn, call):
+    """(returned expression, {parameter: argument}) if `call` calls a local lambda of fn whose body is one `return e;` that writes
+    nothing: the call then denotes e with the arguments in place of the parameters (what is captured by reference is the
+    variable itself; what is captured by copy must never be written in fn, so that the copy is the variable).  None if `call`
+    is not a call of a lambda, False if it is one that is not of this form."""
+    r = lambda_of_call(fn, call)
+    if r is None:
+        return None
+    lf, le = r
+    if le is None or lf.body is None:
+        return False
+    stmts = [x for x in kids(lf.body) if x is not None and x["k"] != "NullStmt"] if lf.body["k"] == "CompoundStmt" else [lf.body]
+    if len(stmts) != 1 or stmts[0]["k"] != "ReturnStmt" or not kids(stmts[0]) or kids(stmts[0])[0] is None:
+        return False
+    for y in lf.nodes():
+        if y["k"] in ("This", "LambdaExpr", "CXXNewExpr", "CXXDeleteExpr", "CXXThrowExpr", "VarDecl"):
+            return False
+        b = match.binop(y) if y["k"] in ("BinaryOperator", "CompoundAssignOperator", "CXXOperatorCallExpr") else None
+        if b and b[0].endswith("=") and b[0] not in ("==", "!=", "<=", ">="):
+            return False
+        if match.unop(y, ("++", "--")):
+            return False
+    for c in le.get("captures") or []:
+        if c.get("id") is None or (not c.get("byref") and writes_of(fn, c["id"])):
+            return False
+    args = kids(call)[1:]
+    if len(args) != len(lf.params):
+        return False
+    return kids(stmts[0])[0], {p_["did"]: a for p_, a in zip(lf.params, args)}
+
+
+def array_at(fn, e, depth=0):
+    """(array expression, constant offset) of a pointer into an array: a | a + c | c + a | &a[c] (a: an array); None otherwise"""
+    e = resolve(fn, e)
+    if e is None or depth > 4:
+        return None
+    while e["k"] == "ParenExpr" and kids(e):
+        e = resolve(fn, kids(e)[0])
+    b = match.binop(e, ("+",)) if e["k"] == "BinaryOperator" else None
+    if b:
+        for x, y in ((b[1], b[2]), (b[2], b[1])):
+            c = const_int(y)
+            if c is not None:
+                r = array_at(fn, x, depth + 1)
+                return (r[0], r[1] + c) if r else None
+        return None
+    if e["k"] == "UnaryOperator" and e.get("op") == "&":
+        ip = match.index_parts(kids(e)[0])
+        c = const_int(ip[1]) if ip else None
+        if c is not None:
+            r = array_at(fn, ip[0], depth + 1)
+            return (r[0], r[1] + c) if r else None
+        return None
+    if e["k"] in ("DeclRefExpr", "MemberExpr") and "[" in (e.get("ty") or "") and (e.get("ty") or "").rstrip().endswith("]"):
+        return e, 0
+    return None
+
+
 class StepInfo:
     def __init__(self, tu, ctor):
         self.ctor = ctor
         self.rec = ctor.record
-        ex = [z["callee"]["name"] for z in ctor.nodes() if "callee" in z and z["callee"]["name"] in ("get_uint8", "get_uint16")]
+        ex = [z["callee"]["name"] for z in nodes_with_lambdas(tu, ctor) if "callee" in z and z["callee"]["name"] in ("get_uint8", "get_uint16")]
         if not ex or len(set(ex)) != 1:
             raise ir.AnalysisBroken("%s: key extractor not unique: %s" % (ctor.full, ex))
         self.k = 1 if ex[0] == "get_uint8" else 2
@@ -486,6 +567,62 @@ def shadow_aware(tu, callee_did, pidx=0, seen=None):
 
 
 # ------------------------------------------------------------------ the radix loops
+_FILL_MODEL = {}
+
+
+def lcp_fill_model(tu, did):
+    """what fill_lcp(v) of a string pointer class does, read from its body: ("noop",) for an empty body (a pointer without
+    LCP array), ("fill", c) for `for (i = c; i < size(); ++i) set_lcp(i, v)` on the object itself; None if the body is not
+    known or of another form"""
+    if did not in _FILL_MODEL:
+        _FILL_MODEL[did] = _lcp_fill_model(tu, did)
+    return _FILL_MODEL[did]
+
+
+def _lcp_fill_model(tu, did):
+    fn = tu.by_did.get(did)
+    if fn is None or fn.body is None or len(fn.params) != 1:
+        return None
+
+    def flat(stmts):
+        for s_ in stmts:
+            if s_ is not None and s_["k"] == "CompoundStmt":
+                yield from flat(kids(s_))
+            elif s_ is not None and s_["k"] != "NullStmt":
+                yield s_
+    stmts = list(flat([fn.body]))
+    if not stmts:
+        return ("noop",)
+    if len(stmts) != 1 or stmts[0]["k"] not in ("ForStmt", "WhileStmt"):
+        return None
+    loop = stmts[0]
+    try:
+        parts = fill_loop_parts(fn, loop)
+    except Undecidable:
+        return None
+    if parts is None:
+        return None
+    var, start, call = parts
+    init, cond, inc, body = match.loop_parts(loop)
+    a = kids(call)
+    if not call.get("member_call") or len(a) != 3 or strip_casts(a[0])["k"] != "This" or ref_of(a[2]) != fn.params[0]["did"]:
+        return None
+    c = const_int(resolve(fn, start))
+    if c is None or c < 0:
+        return None
+    if any(not any(y is w_ for y in walk(loop)) for w_ in writes_of(fn, var)):
+        return None             # the counter is also written outside the loop
+    cb = match.binop(cond, ("<", ">")) if cond is not None else None
+    if not cb:
+        return None
+    x, y = (cb[1], cb[2]) if cb[0] == "<" else (cb[2], cb[1])
+    sz = strip_casts(y)
+    if ref_of(x) != var or sz is None or "callee" not in sz or sz["callee"]["name"] != "size" or not sz.get("member_call") or \
+            strip_casts(kids(sz)[0])["k"] != "This":
+        return None
+    return ("fill", c)
+
+
 class Path:
     """one path through the dispatch of one bucket: evaluates what happens to the step's cursor and to the bucket"""
 
@@ -502,6 +639,7 @@ class Path:
         self.fills = []         # (lo, hi, val, node)
         self.bsubs = []         # (index value, node) of the reads of rs.bkt_size[...]
         self.lcp_writes = 0
+        self.lr_used = set()    # named ranges whose only use is an LCP fill that is understood
 
     def advance(self, run):
         while self.done < len(run.events):
@@ -605,6 +743,27 @@ class Path:
                     r2 = dict(rr)
                     r2["homed"] = True
                     self.rv[z["id"]] = r2
+                    return
+                if name == "fill_lcp" and len(args) == 2:
+                    # sub(off, n).fill_lcp(v): what the member function does is read from its body
+                    m = lcp_fill_model(cx.tu, z["callee"].get("did"))
+                    if m is None:
+                        und(fn, z, "fill_lcp() on a bucket range: the body of this fill_lcp() is not understood")
+                    d = ref_of(recv)
+                    if d is not None and d in self.lr:
+                        if rr["kind"] != "sub":
+                            und(fn, z, "fill_lcp() on a named flipped bucket range is not understood")
+                        self.lr_used.add(d)         # in place: the named range has no other effect
+                    elif rr["kind"] == "flip":
+                        # flip(...)[.copy_back()].fill_lcp(v) as a statement: the temporary range is used up here, what
+                        # became of the bucket (copied home or not) is judged like a dropped flip(...).copy_back()
+                        self.handons.append(dict(range=rr, cons=None, cname=None, args=[]))
+                    if m[0] == "fill":
+                        val = L.ev(args[1], arg=True)
+                        if rr["off"] is None or rr["len"] is None or val is None:
+                            und(fn, z, "fill_lcp() on a bucket range: range or value not understood: %s" % dtable.describe(z))
+                        self.fills.append((lin_add(rr["off"], {1: m[1]}), lin_add(rr["off"], rr["len"]), val, z))
+                        self.lcp_writes += 1
                     return
                 und(fn, z, "%s() on a bucket range is not understood" % name)
             if L.is_ptr(recv):
@@ -767,6 +926,44 @@ def bucket_loop(fn):
     if len(loops) != 1:
         raise ir.AnalysisBroken("%s: bucket loop not found" % fn.full)
     return found
+
+
+def atoms_hold(val, atoms, sym, x):
+    """do the decided atoms that talk about the symbol alone hold for sym = x?"""
+    for key, v in val.items():
+        info = atoms.get(key)
+        if info and set(info[1]) - {1} == {sym}:
+            t = info[1][sym] * x + info[1].get(1, 0)
+            if ((t < 0) if info[0] == "lt" else (t == 0)) != v:
+                return False
+    return True
+
+
+def final_bucket_witness(fn, w, val, atoms, iiv, biv, cond_s):
+    """(bucket index, bucket size) of a bucket with 2+ strings whose second key byte is the terminator and that takes the path
+    with the valuation val; None if the path excludes such buckets.  Undecidable if the path depends on tests that are not
+    understood."""
+    fin = val.get("final")
+    if fin is False:
+        return None
+    for key in val:
+        info = atoms.get(key)
+        if info is None and key != "final":
+            und(fn, w, "on the path {%s} a bucket is handed on; whether a final bucket (second key byte is the terminator) can take this "
+                "path depends on a test that is not understood" % cond_s)
+        if info is not None and len(set(info[1]) - {1}) > 1 and set(info[1]) & {"idx0", "b"}:
+            und(fn, w, "on the path {%s} a test relates the bucket index or size to another quantity: %s" % (cond_s, key))
+    bw = next((x for x in range(max(biv[0], 2), max(biv[0], 2) + 64) if x <= biv[1] and atoms_hold(val, atoms, "b", x)), None)
+    if bw is None:
+        return None
+    if iiv[1] == INF:
+        return None
+    t = ((iiv[0] + 1 + 255) // 256) * 256
+    while t <= iiv[1] + 1:
+        if t >= 256 and atoms_hold(val, atoms, "idx0", t - 1):
+            return t, bw
+        t += 256
+    return None
 
 
 def check_loops(ck, tu):
@@ -964,7 +1161,7 @@ def check_loop_fn(ck, tu, fn, stackdecl):
         if not hand:
             if not step.shadow and biv[1] <= 1:
                 continue        # in place: a bucket of at most one string is where it belongs
-            if st.lr:
+            if set(st.lr) - st.lr_used:
                 und(fn, w, "on the path {%s} a bucket range is named but not used in a way that is understood" % cond_s)
             if step.shadow:
                 if opaque:
@@ -1056,6 +1253,16 @@ def check_loop_fn(ck, tu, fn, stackdecl):
                     und(fn, dargs[base_i], "base of the new step not understood: %s" % dtable.describe(dargs[base_i]))
                 if bse != {"pos0": 1}:
                     report("BUCKET-DISPOSED", sig + ":base", "the new step's base is %s, the bucket starts at pos" % fmt_lin(bse), cons)
+                    continue
+            # a bucket of the 16-bit radix whose second key byte is the terminator holds equal strings that end at
+            # depth + 2*size - 1: a consumer that continues at depth + 2*size compares behind their end
+            if step.k == 2 and biv[1] >= 2:
+                wit = final_bucket_witness(fn, w, lf["val"], atoms, iiv, biv, cond_s)
+                if wit is not None:
+                    report("DEPTH-ADVANCE", "%s:final-handed-on:%s" % (fn.name, cname),
+                           "on the path {%s} bucket idx = %d (second key byte is the terminator: its strings are equal and end at depth + 2*size - 1) "
+                           "with %d strings is handed to %s(), which continues at depth + 2*size, behind the end of these strings; a final bucket "
+                           "is only copied home and gets LCP depth + 2*size - 1" % (cond_s, wit[0], wit[1], cname), cons)
                     continue
             ck.ok("BUCKET-DISPOSED", where(fn, "{%s}" % cond_s), "[pos, +bkt_size) -> %s%s" % (cname, " after copy_back" if r["homed"] else ""))
             if r["kind"] == "flip":
@@ -1283,14 +1490,43 @@ def affine(fn, e, depth=0):
     return None
 
 
+def _expand(fn, e, m, side, depth=0):
+    """e looked through casts, locals that only name a value, calls of local lambdas of the form `return e;` and the parameters
+    of such a lambda (m[("sub" + side, parameter)] = argument); False if a lambda call cannot be looked through"""
+    e = resolve(fn, e)
+    while e is not None and depth < 8:
+        depth += 1
+        if e["k"] == "DeclRefExpr" and ("sub" + side, e["ref"]["id"]) in m:
+            e = resolve(fn, m[("sub" + side, e["ref"]["id"])])
+            continue
+        if "callee" in e and e.get("op") == "()":
+            r = lambda_inline(fn, e)
+            if r is None:
+                break
+            if r is False:
+                return False
+            for d, arg in r[1].items():
+                key = ("sub" + side, d)
+                if key in m and m[key] is not arg:
+                    return False    # the same lambda called twice on one side with different arguments
+                m[key] = arg
+            e = resolve(fn, r[0])
+            continue
+        break
+    return e
+
+
 def expr_cmp(fn, a, b, m):
     """'same' | 'differs' (a difference both sides of which are understood: another literal, operator, function, member,
     parameter) | 'unknown'.  Loop variables of twin loops are matched by consistent renaming (m)."""
-    a, b = resolve(fn, a), resolve(fn, b)
+    a, b = _expand(fn, a, m, "A"), _expand(fn, b, m, "B")
+    if a is False or b is False:
+        return "unknown"        # a call of a local lambda that is not looked through
     if a is None or b is None:
         return "same" if a is b else "unknown"
     fa, fb = affine(fn, a), affine(fn, b)
-    if fa is not None and fb is not None and fa[0] == fb[0] and (a["k"] != b["k"] or fa[0] is None):
+    if fa is not None and fb is not None and fa[0] == fb[0] and (a["k"] != b["k"] or fa[0] is None) and \
+            ("subA", fa[0]) not in m and ("subB", fb[0]) not in m:
         return "same" if fa == fb else "differs"        # v + c against v + c'
     if a["k"] != b["k"]:
         ca, cb = const_int(a), const_int(b)
@@ -1376,6 +1612,50 @@ def check_prefix(ck, ctor, info):
             rec = ("exclusive", arr, z)
         else:
             und(ctor, z, "prefix-sum recurrence adds a bucket size that is neither its own nor the previous one: %s" % dtable.describe(z))
+    for z in ctor.nodes():
+        # the same sums written by a standard algorithm over the counters
+        if "callee" not in z or z.get("member_call") or z["callee"]["qname"] not in ("std::partial_sum", "std::inclusive_scan", "std::exclusive_scan"):
+            continue
+        nm = z["callee"]["name"]
+        args = kids(z)
+        if not any(match.this_field(y) == "bkt_size" for a in args for y in walk(a)):
+            continue
+        if rec is not None:
+            und(ctor, z, "more than one prefix-sum computation over the bucket sizes")
+        if len(args) != (4 if nm == "exclusive_scan" else 3):
+            und(ctor, z, "%s() with an operation or an execution policy is not understood" % nm)
+        src, end, dst = array_at(ctor, args[0]), array_at(ctor, args[1]), array_at(ctor, args[2])
+        if not src or not end or not dst or match.this_field(src[0]) != "bkt_size" or match.this_field(end[0]) != "bkt_size" or \
+                ref_of(dst[0]) is None or end[1] <= src[1] or src[1] < 0 or dst[1] < 0:
+            und(ctor, z, "%s() over ranges that are not understood: %s" % (nm, dtable.describe(z)))
+        arr0 = ref_of(dst[0])
+        c0, c1 = src[1], dst[1]
+        if nm == "exclusive_scan":
+            # X[i] = init + bkt_size[0] + ... + bkt_size[i-1]; X[0] = init is the base of the sums as in `X[0] = <begin>`
+            if c0 != 0 or c1 != 0:
+                und(ctor, z, "exclusive_scan() that does not start at bucket 0: %s" % dtable.describe(z))
+            rec = ("exclusive", arr0, z)
+            continue
+        # X[c1 + i] = bkt_size[c0] + ... + bkt_size[c0 + i]
+        if c1 == 0 and c0 == 0:
+            rec = ("inclusive", arr0, z)
+            continue
+        if c1 >= 1 and c0 in (c1, c1 - 1):
+            # the first sum written is bkt_size[c0] alone: that is X[c1 - 1] + bkt_size[c0] only if X[c1 - 1] is 0
+            base = [y for y in ctor.nodes() if y["k"] == "BinaryOperator" and y.get("op") == "=" and match.index_parts(kids(y)[0]) and
+                    ref_of(match.index_parts(kids(y)[0])[0]) == arr0 and const_int(match.index_parts(kids(y)[0])[1]) == c1 - 1]
+            if len(base) == 1 and const_int(kids(base[0])[1]) not in (None, 0):
+                # evaluated: slot c1 - 1 holds a known number other than 0, so X[c1] = bkt_size[c0] is not X[c1 - 1] + bkt_size[c0]
+                ck.violation("PREFIX-SUM-USE", ctor.qname, ctor.name + ":base",
+                             "%s() writes slot %d as bkt_size[%d] alone, but slot %d holds %d: the cursors of bucket %d and the following "
+                             "buckets overlap — strings land off their bucket" % (nm, c1, c0, c1 - 1, const_int(kids(base[0])[1]), c1 - 1),
+                             ctor.nloc(z))
+                return
+            if len(base) != 1 or const_int(kids(base[0])[1]) != 0:
+                und(ctor, z, "%s() writes the sums from slot %d on; that slot %d holds 0 is not established" % (nm, c1, c1 - 1))
+            rec = ("inclusive" if c0 == c1 else "exclusive", arr0, z)
+            continue
+        und(ctor, z, "%s() adds bucket sizes that are neither the slot's own nor the previous one: %s" % (nm, dtable.describe(z)))
     if rec is None:
         raise ir.AnalysisBroken("%s: prefix-sum recurrence not found" % ctor.full)
     kind, arr, node = rec
@@ -1635,6 +1915,8 @@ def check_index_bounds(ck, tu):
         g = cfgm.CFG(fn)
         bad, n_sites = intervals.fixed_array_findings(fn, g)
         if not n_sites:
+            if fn.kind == "lambda":
+                continue        # a lambda written inside a step function that subscripts no bucket array: nothing to bound
             raise ir.AnalysisBroken("%s: no fixed-size bucket array subscripts found" % fn.full)
         seen = set()
         undecided = None
